@@ -69,17 +69,22 @@ pub struct FutCfg {
     /// per sink: not a task at all but a plain thread that uses the direct try_send method of the
     /// futures sender (retrying on Full) - parked stream tasks must hear about its values as well
     pub direct_sinks: Vec<bool>,
+    /// per sink task: now and then it is polled a second time right after a refusal, before it goes to
+    /// sleep (a task may be polled at any time: select-style executors do this) - the park list then
+    /// holds several entries for one task, which must not cost anybody else a wake-up
+    pub repoll_sinks: Vec<bool>,
 }
 
 impl FutCfg {
     pub fn describe(&self) -> String {
         format!(
-            "fut {} cap={} spins={:?} sinks(values,drop)={:?} direct-try_send={:?} streams={:?} converted={:?} sync_drop={} policy={} plan=[{}]",
+            "fut {} cap={} spins={:?} sinks(values,drop)={:?} direct-try_send={:?} repoll={:?} streams={:?} converted={:?} sync_drop={} policy={} plan=[{}]",
             self.fl.name(),
             self.cap,
             self.spins,
             self.sinks,
             self.direct_sinks,
+            self.repoll_sinks,
             self.streams,
             self.roundtrip,
             self.sync_drop,
@@ -253,6 +258,7 @@ pub fn gen_cfg(rng: &mut Rng, small: bool) -> FutCfg {
     }
     let roundtrip: Vec<bool> = streams.iter().map(|_| rng.chance(1, 3)).collect();
     let direct_sinks: Vec<bool> = (0..sinks.len()).map(|_| crowd == 0 && rng.chance(1, 5)).collect();
+    let n_sinks = sinks.len();
     FutCfg {
         direct_sinks,
         fl,
@@ -265,6 +271,7 @@ pub fn gen_cfg(rng: &mut Rng, small: bool) -> FutCfg {
         seed: rng.next(),
         roundtrip,
         sync_drop: rng.chance(1, 2),
+        repoll_sinks: (0..n_sinks).map(|_| rng.chance(1, 3)).collect(),
     }
 }
 
@@ -362,6 +369,7 @@ fn sink_thread(mut tx: TxH, values: u32, drop_at_end: bool, pidx: u32, sh: &Shar
         // plain thread, never parked: try_send with retries; gives up on a queue that stays full
         // once every task is parked or done
         let mut idle = 0u64;
+        let mut refused = 0u64;
         while k < values && !sh.shutdown.load(SeqCst) {
             let id = (((pidx + 1) as u64) << 32) | k as u64;
             match tx.try_send(id) {
@@ -369,8 +377,15 @@ fn sink_thread(mut tx: TxH, values: u32, drop_at_end: bool, pidx: u32, sh: &Shar
                     sh.progress_ops.fetch_add(1, SeqCst);
                     k += 1;
                     idle = 0;
+                    refused = 0;
                 }
                 SendOut::Full => {
+                    // every attempt creates a payload instance: a retry loop that spins for seconds
+                    // against a paused stream would run the payload ledger out of slots
+                    refused += 1;
+                    if refused > 20_000 && !cfg!(miri) {
+                        std::thread::sleep(Duration::from_micros(100));
+                    }
                     let others_idle = (0..MAXT).all(|t| t == tid || !sh.is_task[t].load(SeqCst) || sh.state[t].load(SeqCst) != RUNNING);
                     if others_idle {
                         idle += 1;
@@ -387,6 +402,7 @@ fn sink_thread(mut tx: TxH, values: u32, drop_at_end: bool, pidx: u32, sh: &Shar
         }
         k = values;
     }
+    let repoll = cfg.repoll_sinks.get(pidx as usize).copied().unwrap_or(false);
     'outer: while k < values {
         let id = (((pidx + 1) as u64) << 32) | k as u64;
         loop {
@@ -397,7 +413,20 @@ fn sink_thread(mut tx: TxH, values: u32, drop_at_end: bool, pidx: u32, sh: &Shar
                     k += 1;
                     break;
                 }
-                SendOut::NotReady => loop {
+                SendOut::NotReady => {
+                  if repoll && (k + pidx) % 2 == 0 {
+                    // spurious second poll of the refused task: one more entry on the park list
+                    match tx.start_send(id) {
+                        SendOut::Ok => {
+                            sh.progress_ops.fetch_add(1, SeqCst);
+                            k += 1;
+                            break;
+                        }
+                        SendOut::NotReady => {}
+                        _ => break 'outer,
+                    }
+                  }
+                  loop {
                     match park(sh, tid, &tx.note.clone(), before) {
                         ParkExit::Notified => break,
                         ParkExit::Shutdown => break 'outer,
@@ -426,7 +455,8 @@ fn sink_thread(mut tx: TxH, values: u32, drop_at_end: bool, pidx: u32, sh: &Shar
                             }
                         }
                     }
-                },
+                  }
+                }
                 _ => break 'outer,
             }
         }
